@@ -47,7 +47,7 @@ pub fn victim_stream(ty: Ty) -> (Vec<u8>, usize) {
 }
 
 pub fn scenario(pr: &Params) -> Verdict {
-    world::reset(world::WorldCfg { nested_env: false, yields: false, select: true, policy: pr.policy });
+    world::reset(world::WorldCfg { nested_env: false, yields: false, select: true, policy: pr.policy, coop: false });
     let ty = pr.ty;
     let (vs, hs_len) = victim_stream(ty);
     let victim = e3::raw_conn("V");
